@@ -115,18 +115,40 @@ Section Defs.
   (** a collection can only start outside the finalization and drop passes *)
   Lemma G_idle A m : G K A m -> st_collecting m = false -> G K [] m.
   Proof.
-    intros [D|[I HA]] Hc; [left; exact D|right]. destruct A as [|a A]; [split; auto|].
+    intros [D|(I & HA & Hz)] Hc; [left; exact D|right].
+    destruct A as [|a A]; [split; [exact I|split; [exact HA|exact Hz]]|].
     rewrite HA in Hc by discriminate. discriminate.
   Qed.
   Lemma G_nil_any A m : G K [] m -> (A = [] \/ dirty m) -> G K A m.
   Proof. intros H [->|D]; [exact H|left; exact D]. Qed.
   Lemma G_idle_cases A m : G K A m -> st_collecting m = false -> A = [] \/ dirty m.
   Proof.
-    intros [D|[I HA]] Hc; [right; exact D|left]. destruct A as [|a A]; [reflexivity|].
+    intros [D|(I & HA & Hz)] Hc; [right; exact D|left]. destruct A as [|a A]; [reflexivity|].
     rewrite HA in Hc by discriminate. discriminate.
   Qed.
-  Lemma G_of_GI L m : GI K L [] m -> (L <> [] -> st_collecting m = true) -> G K L m.
-  Proof. intros [D|I] H; [left; exact D|right; split; assumption]. Qed.
+  Lemma G_of_GI L m :
+    GI K L [] m -> (L <> [] -> st_collecting m = true) -> (dirty m \/ tcz m) -> G K L m.
+  Proof.
+    intros [D|I] H [D'|Hz]; [left; exact D|left; exact D|left; exact D'|right].
+    split; [exact I|split; assumption].
+  Qed.
+  Lemma Ibuf_nil m : Imk K [] [] m -> tcz m -> Ibuf K [] m.
+  Proof. intros I Hz. split; [exact I|]. split; [intros H; contradiction|exact Hz]. Qed.
+  Lemma tcz_fold_uhdr f L : forall m,
+    (forall h, h_mark (f h) = PC -> h_tc (f h) = 0) -> tcz m ->
+    tcz (fold_left (fun m g => uhdr g f m) L m).
+  Proof.
+    induction L as [|a L IH]; intros m Hf Z; cbn; [exact Z|]. apply IH; [exact Hf|].
+    apply tcz_upd; [exact Z|]. intros x _. cbn. apply Hf.
+  Qed.
+  Lemma tcz_box_alloc o m : tcz m -> tcz (box_alloc K o m).
+  Proof.
+    intros Z. unfold box_alloc. destruct (get m o) as [x|]; [|exact Z].
+    destruct (box_layout K x) as [sz al].
+    match goal with |- tcz (emit _ (upd o ?f ?m1)) =>
+      apply (tcz_heap (upd o f m1)); [reflexivity|]; apply tcz_upd; [exact Z|] end.
+    intros y _ Hm. discriminate Hm.
+  Qed.
   Lemma GI_of_G L m : G K L m -> GI K L [] m.
   Proof. intros [D|[I _]]; [left; exact D|right; exact I]. Qed.
 
@@ -141,8 +163,23 @@ Section Defs.
   Lemma mild_add_to_list' o m : live_at o m -> mild K m (add_to_list o m).
   Proof.
     intros [D|(x & Ex & Hb)]; [|eapply mild_add_to_list; eassumption].
-    split; [apply frame_add_to_list|]. intros Ls Qs _. left.
-    eapply frame_dirty; [apply frame_add_to_list|exact D].
+    assert (D' : dirty (add_to_list o m)) by (eapply frame_dirty; [apply frame_add_to_list|exact D]).
+    split; [apply frame_add_to_list|]. split; [intros Ls Qs _; left; exact D'|].
+    intros Ls Qs _ _. left. exact D'.
+  Qed.
+
+  (** [set_dropped] is only ever applied to objects that are not buffered *)
+  Lemma mild_drop_prelude o g Y :
+    mild K Y (uhdr o set_dropped (set st_dropping g (remove_from_list o Y))).
+  Proof.
+    assert (M1 : mild K Y (set st_dropping g (remove_from_list o Y))).
+    { eapply mild_trans; [apply mild_remove_from_list|apply mild_set_st_dropping]. }
+    split; [eapply frame_trans; [apply M1|apply frame_uhdr]|]. split.
+    - intros Ls Qs H. apply GI_uhdr; [intros h; reflexivity|]. apply (mild_GI K _ _ _ _ M1 H).
+    - intros Ls Qs I Z. right. apply tcz_upd.
+      + eapply (tcz_heap (remove_from_list o Y)); [reflexivity|]. apply tcz_remove_from_list, Z.
+      + intros x E Hm. exfalso.
+        apply (remove_from_list_notpc o Y x (ik_alive _ _ _ _ I)); [exact E|exact Hm].
   Qed.
   Lemma Res_shift A m m1 E r : frame m m1 -> Res A m1 E r -> Res A m E r.
   Proof. intros F [F1 H]. split; [eapply frame_trans; eassumption|exact H]. Qed.
@@ -161,8 +198,8 @@ Section Defs.
     G K A m -> G K A (box_alloc K o m).
   Proof.
     intros Hb HG. destruct (GI_box_alloc K A [] o m Hb (GI_of_G _ _ HG)) as [D|I]; [left; exact D|].
-    destruct HG as [D|[_ HA]]; [left; eapply dirty_ext; [apply box_alloc_ext|exact D]|right].
-    split; [exact I|]. rewrite box_alloc_coll. exact HA.
+    destruct HG as [D|(_ & HA & Hz)]; [left; eapply dirty_ext; [apply box_alloc_ext|exact D]|right].
+    split; [exact I|]. split; [rewrite box_alloc_coll; exact HA|apply tcz_box_alloc, Hz].
   Qed.
 
   (** the box of the object created by the preceding [new_node]/[new_map] (in state [m2]) *)
@@ -187,7 +224,8 @@ End Defs.
 #[export] Hint Extern 2 (mild _ _ (uhdr ?o (fun _ => ?h) ?X)) =>
   (apply (mild_trans _ _ X);
    [|apply mild_uhdr_const;
-     first [eapply inc_rc_mark; eassumption | eapply dec_rc_mark; eassumption]]) : mild.
+     [first [eapply inc_rc_mark; eassumption | eapply dec_rc_mark; eassumption]
+     |first [eapply inc_rc_tc; eassumption | eapply dec_rc_tc; eassumption]]]) : mild.
 
 Ltac live_tac :=
   match goal with
@@ -197,6 +235,20 @@ Ltac live_tac :=
   end.
 #[export] Hint Extern 1 (mild ?K _ (add_to_list ?o ?X)) =>
   (apply (mild_trans K _ X); [|apply mild_add_to_list'; live_tac]) : mild.
+
+Ltac notpc_tac :=
+  first
+  [ left; apply dirty_emit_bad; reflexivity
+  | right; intros ? Ex Hm;
+    match goal with
+    | H : is_in_list (hdr_of _ _) = true |- _ =>
+      rewrite (hdr_of_get _ _ _ Ex) in H; apply mark_il in H; congruence
+    end ].
+#[export] Hint Extern 1 (mild ?K _ (uhdr ?o set_dropped (set st_dropping ?g (remove_from_list ?o ?Y)))) =>
+  (apply (mild_trans K _ Y); [|apply mild_drop_prelude]) : mild.
+#[export] Hint Extern 2 (mild ?K _ (uhdr ?o set_dropped ?X)) =>
+  (apply (mild_trans K _ X);
+   [|apply mild_uhdr_notpc; [intros ?; reflexivity|notpc_tac]]) : mild.
 
 Ltac nf_tac := first [discriminate | apply raise_nf | assumption].
 Ltac relabel_tac :=
@@ -607,8 +659,9 @@ Section Steps.
     set (m1 := m <| st_collecting := true |> <| st_exec ::= N.succ |>).
     set (n := if k_fin K then 10%nat else 1%nat).
     assert (HP1 : PreA A (KCollectLoop n) m1).
-    { split; [|reflexivity]. destruct (G_idle _ _ _ HG Hc) as [D|[I _]]; [left; exact D|right].
-      split; [|intros H; contradiction]. eapply Imk_same; [..|exact I]; reflexivity. }
+    { split; [|reflexivity]. destruct (G_idle _ _ _ HG Hc) as [D|(I & _ & Hz)]; [left; exact D|right].
+      apply Ibuf_nil; [eapply Imk_same; [..|exact I]; reflexivity|].
+      eapply tcz_heap; [|exact Hz]. reflexivity. }
     destruct (Hrec A _ _ HP1) as (F1 & G1 & _).
     destruct (rec (KCollectLoop n) m1) as [m2 r]. cbn [fst snd] in *.
     destruct F1 as [F1 F2 F3 F4 F5].
@@ -622,8 +675,9 @@ Section Steps.
       + intros o x Ex. destruct (F5 o x Ex) as (x' & Ex' & N1 & N2). exists x'.
         split; [exact Ex'|]. split; [exact N1|]. exact N2.
     - intros Hr. cbn [goalA]. apply G_nil_any.
-      + destruct (G1 Hr) as [D|[I _]]; [left; exact D|right].
-        split; [|intros H; contradiction]. eapply Imk_same; [..|exact I]; reflexivity.
+      + destruct (G1 Hr) as [D|(I & _ & Hz)]; [left; exact D|right].
+        apply Ibuf_nil; [eapply Imk_same; [..|exact I]; reflexivity|].
+        eapply tcz_heap; [|exact Hz]. reflexivity.
       + destruct (G_idle_cases _ _ _ HG Hc) as [->|D]; [left; reflexivity|right].
         eapply dirty_ext; [|exact D]. destruct F1 as [l El]. exists l. exact El.
     - intros _ _. exact He.
@@ -658,6 +712,7 @@ Section Steps.
     pose proof (mild_G K _ _ _ M0 HG) as HG0.
     pose proof (trace_pass_buf K P m0 (GI_of_G _ _ _ HG0)) as HT.
     pose proof (frame_trace_pass K P m0) as FT.
+    pose proof (trace_pass_pcz K P m0) as HZ.
     destruct (trace_pass K P m0) as [m1 pr]. cbn [fst snd] in *.
     assert (F1 : frame m m1) by (eapply frame_trans; [apply M0|exact FT]).
     assert (Hc1 : st_collecting m1 = true) by (rewrite (fr_coll _ _ F1); exact Hc).
@@ -666,7 +721,8 @@ Section Steps.
     assert (F2 : frame m m2) by (eapply frame_trans; [exact F1|apply M2]).
     destruct pr as [L| |].
     - assert (HGL : G K L m2).
-      { eapply mild_G; [exact M2|]. apply G_of_GI; [exact HT|]. intros _. exact Hc1. }
+      { eapply mild_G; [exact M2|]. apply G_of_GI; [exact HT|intros _; exact Hc1|].
+        eapply tcz_of_pcz; [exact HT|]. apply HZ. discriminate. }
       destruct L as [|g L'].
       + split; [exact F2|]. split; [intros _; exact HGL|discriminate].
       + destruct (k_fin K).
@@ -685,7 +741,8 @@ Section Steps.
           { apply (mild_frame K). mild_solve. }
           split; [exact G3|discriminate].
     - split; [exact F2|]. split; [|discriminate]. intros _.
-      eapply mild_G; [exact M2|]. apply G_of_GI; [exact HT|]. intros H; contradiction.
+      eapply mild_G; [exact M2|]. apply G_of_GI; [exact HT|intros H; contradiction|].
+      eapply tcz_of_pcz; [exact HT|]. apply HZ. discriminate.
     - cbn [fst snd]. split; [|split; [intros H; contradiction|discriminate]].
       eapply frame_trans; [exact F2|apply frame_emit].
   Qed.
@@ -705,9 +762,11 @@ Section Steps.
     (forall h, f (f h) = f h) -> (forall h, h_mark (f h) = NM) ->
     G K L m -> G K [] (fold_left (fun m g => uhdr g f m) L m).
   Proof.
-    intros Hf Hnm [D|[I _]]; [left; eapply frame_dirty; [apply frame_fold_uhdr|exact D]|right].
-    split; [|intros H; contradiction]. eapply Imk_unlink_all; [exact I|exact Hf|exact Hnm|].
-    intros o. rewrite app_nil_r. reflexivity.
+    intros Hf Hnm [D|(I & _ & Hz)]; [left; eapply frame_dirty; [apply frame_fold_uhdr|exact D]|right].
+    apply Ibuf_nil.
+    - eapply Imk_unlink_all; [exact I|exact Hf|exact Hnm|].
+      intros o. rewrite app_nil_r. reflexivity.
+    - apply tcz_fold_uhdr; [|exact Hz]. intros h Hm. rewrite Hnm in Hm. discriminate.
   Qed.
 
   Lemma pass_tail A L c0 c m mi r0 E0 :
@@ -743,9 +802,11 @@ Section Steps.
         * frame_peel. eapply frame_trans; [|apply frame_fold_uhdr]. frame_peel.
         * intros _.
           assert (HG' : G K L (m <| st_finalizing := old_f |>)) by (eapply mild_G; [|exact HG]; mild_solve).
-          destruct HG' as [D|[I' _]].
+          destruct HG' as [D|(I' & _ & Hz')].
           -- left. eapply dirty_same; [|eapply frame_dirty; [apply frame_fold_uhdr|exact D]]. reflexivity.
-          -- right. split; [|intros H; contradiction]. apply Imk_rebuffer, I'.
+          -- right. apply Ibuf_nil; [apply Imk_rebuffer, I'|].
+             eapply tcz_heap; [|apply tcz_fold_uhdr; [|exact Hz']]; [reflexivity|].
+             intros h _. reflexivity.
     - repeat (step1 Hrec);
         try (exfalso; eapply raise_nf; eassumption);
         try (cbn [fst snd]; eapply Hun;
@@ -840,8 +901,8 @@ Section Steps.
       apply Post_nil; [exact I| |].
       + frame_peel. apply M.
       + intros _. eapply mild_G; [|instantiate (1 := m')]; [mild_solve|].
-        destruct (mild_G K _ _ _ M HG) as [D|[I' _]]; [left; exact D|right].
-        split; [|intros H; contradiction]. eapply Imk_freed; [exact I'|].
+        destruct (mild_G K _ _ _ M HG) as [D|(I' & _ & Hz')]; [left; exact D|right].
+        apply Ibuf_nil; [|exact Hz']. eapply Imk_freed; [exact I'|].
         intros o Ho. subst m'. rewrite box_of_fold_dealloc, decide_True by exact Ho.
         destruct (ik_valid _ _ _ _ I' o) as [x Ex]; [rewrite !elem_of_app; auto|].
         assert (Hb : box_of (fold_left (fun m g => dealloc K g (drop_metadata K g m)) L m) o = Some (o_box x)).
